@@ -580,7 +580,15 @@ def run_sched_stream(prop, stream, tier, seed, workdir, scale=1):
                     {"kind": "MON", "id": pid, "episode": 0, "step": 0, "text": f"MON {pid} :: {msg}", "raw": rp}), tlines, ev, iline=iline)
                 runs += 1
                 acc["steps"] += 1
-                if iline is not None and not age_unsafe:
+                hot = spec[cur.fns[0]]
+                # a SYNC TLRU cache with a ttl breaks exact score ties by the REAL ages of the entries (nanoseconds apart), far below the
+                # 1 s grain of the dumps the replay starts from: when another thread hits a freshly written entry before its queue
+                # section runs, two entries with hits > 0 can tie exactly (0.1 x 1 x 2 = 0.1 x 2 x 1) and the real run then evicts the OLDER
+                # one, which the model cannot know.  Such runs are not replayed (their monitors and quiescent checks still count).
+                sync_tlru_ttl = (not hot["is_async"]) and hot["policy"] == "tlru" and hot["ttl"] is not None
+                if sync_tlru_ttl:
+                    ev("replay-skipped-sync-tlru-ttl")
+                if iline is not None and not age_unsafe and not sync_tlru_ttl:
                     try:
                         dl = build_cdata(spec, sites, cur.fns, ktable, iline, v, line)
                     except Exception as exn:
@@ -614,6 +622,11 @@ def run_sched_stream(prop, stream, tier, seed, workdir, scale=1):
     # tie 3: the recorded real schedules replayed on the data-carrying interleaving model (ConcData.creplay)
     dl = sorted(set(dlines))
     q3 = subprocess.run([common.DRIVER, "cdata"], input="\n".join(dl) + "\n", stdout=subprocess.PIPE, stderr=subprocess.STDOUT, env=common.ENV, text=True)
+    if os.environ.get("VERIF_DUMP_CDATA"):
+        with open(os.environ["VERIF_DUMP_CDATA"], "a") as fh:
+            for l in q3.stdout.splitlines():
+                if l.startswith("DIFF") or l.startswith("BAD"):
+                    fh.write(l + "\n")
     for l in q3.stdout.splitlines():
         if l.startswith("DIFF") or l.startswith("BAD"):
             verdicts.append({"kind": l.split(" ")[0], "id": None, "episode": 0, "step": 0, "text": "schedule replay: " + l[:1200]})
